@@ -439,7 +439,7 @@ def solver_for(timeout_ms, fp=False):
     return s
 
 
-def discharge(ob, timeout_ms=10000, extra=(), nice=None):
+def discharge(ob, timeout_ms=10000, extra=(), nice=None, sizes=None):
     """1. quantifier-free hypotheses (pc + universals instantiated at the index terms in play);
     2. if that is not unsat: add the universals as real quantifiers (z3 E-matching/MBQI);
     unsat in either step = discharged (step 1 uses a subset of step 2's hypotheses).
@@ -476,6 +476,22 @@ def discharge(ob, timeout_ms=10000, extra=(), nice=None):
         if r2 == z3.unsat:
             ob.status = 'discharged'
             ob.backend += ' (quantified)'
+        if r1 == z3.unknown and r2 != z3.unsat and sizes:
+            # counter-model search with every symbolic size bounded (a model of the stronger query is a model of the
+            # original one): small arrays make the instantiated universals finite and the search fast
+            for bound in (1, 2, 3):
+                s3 = solver_for(max(2000, int(timeout_ms * 0.2)))
+                s3.add(*qf)
+                s3.add(z3.Not(ob.goal))
+                for sz in sizes.values():
+                    if is_z3(sz):
+                        s3.add(sz <= bound)
+                if s3.check() == z3.sat:
+                    r1, s1 = z3.sat, s3
+                    ob.info['counter_model_search'] = 'sizes <= %d' % bound
+                    break
+        if r2 == z3.unsat:
+            pass
         elif r1 == z3.sat:
             ob.status = 'refuted'
             ob.model = s1.model()
@@ -945,7 +961,7 @@ def verify_contract(c, registry, overrides=None, timeout_ms=10000, log=None, wan
             for ob in ctx.obligs:
                 ob_id += 1
                 st = discharge(ob, timeout_ms, extra=sum_facts,
-                               nice=nice_model_factory(old, it.sizes) if want_models else None)
+                               nice=nice_model_factory(old, it.sizes) if want_models else None, sizes=it.sizes)
                 rec = {'id': '%s/%s/%s#%d' % (c.name, ob.kind, label, ob_id), 'kind': ob.kind,
                        'name': ob.name, 'config': label, 'path': ''.join(str(int(d)) for d in ob.path),
                        'status': st, 'seconds': round(ob.seconds, 4), 'backend': ob.backend,
